@@ -204,6 +204,18 @@ type FnT func(int) string
 
 var gF FnT
 
+func takeG(a, b string, n int, e interface{})      {}
+func takeGV(a, b int, e interface{}, vs ...int)    {}
+func (S2) methG(a, b string, n int)                {}
+
+type SG struct {
+	a, b string
+	n, m int
+	e    interface{}
+}
+
+var gS2 S2
+
 var _ = fmt.Sprint
 var _ = os.Stdout
 var _ = strings.ToUpper
@@ -370,6 +382,25 @@ var sinks = []sinkCtx{
 	{"gi = (%s)", "int", "ParenExpr"},
 	{"_ = []*S2{{%s, \"x\"}}", "int", "CompositeLit"},
 	{"_ = gF(%s)", "int", "CallExpr"},
+	// declared names written in groups (`a, b string, n int`): parameters, struct fields and variables are numbered one by one,
+	// not per group
+	{"takeG(\"a\", \"b\", %s, nil)", "int", "CallExpr"},
+	{"takeG(\"a\", \"b\", 1, %s)", "interface{}", "CallExpr"},
+	{"takeGV(1, %s, nil)", "int", "CallExpr"},
+	{"takeGV(1, 2, nil, %s)", "int", "CallExpr"},
+	{"takeGV(1, 2, %s)", "interface{}", "CallExpr"},
+	{"func(a, b string, c, d int, e interface{}) {}(\"\", \"\", 0, %s, nil)", "int", "CallExpr"},
+	{"func(a, b string, c, d int, e interface{}) {}(\"\", \"\", 0, 0, %s)", "interface{}", "CallExpr"},
+	{"gS2.methG(\"\", \"\", %s)", "int", "CallExpr"},
+	{"S2.methG(gS2, \"\", \"\", %s)", "int", "CallExpr"},
+	{"_ = SG{\"\", \"\", 0, %s, nil}", "int", "CompositeLit"},
+	{"_ = SG{\"\", \"\", 0, 0, %s}", "interface{}", "CompositeLit"},
+	{"_ = SG{m: %s}", "int", "KeyValueExpr"},
+	{"_ = SG{e: %s}", "interface{}", "KeyValueExpr"},
+	{"_ = struct {\n\t\ta, b string\n\t\tn    int\n\t}{\"\", \"\", %s}", "int", "CompositeLit"},
+	{"var _, _, _ interface{} = nil, %s, nil", "interface{}", "ValueSpec"},
+	{"gs, gs, gi, gif = \"\", \"\", %s, nil", "int", "AssignStmt"},
+	{"gs, gs, gi, gif = \"\", \"\", 0, %s", "interface{}", "AssignStmt"},
 }
 
 func probeNames(prefix string, ret string) string {
